@@ -229,6 +229,18 @@ def thorough_selftest(rep: "Report") -> None:
 
 def run_check(pid: str, tier: str, fn) -> int:
     """Run ``fn(tier) -> Report`` under the exit protocol."""
+    import signal
+
+    limit = int(os.environ.get("PDELINT_TIME_LIMIT", "2400" if tier == "quick" else "14400"))
+
+    def _alarm(signum, frame):
+        raise AnalysisError(f"time limit of {limit} s exceeded (a symbolic computation does not terminate); undecided")
+
+    try:
+        signal.signal(signal.SIGALRM, _alarm)
+        signal.alarm(limit)
+    except (ValueError, AttributeError):
+        pass
     try:
         rep = fn(tier)
         rep.tier = tier
